@@ -18,6 +18,7 @@ use vmon::{Cli, Report, Rng, J};
 
 thread_local! {
     static EVALS: Cell<u64> = const { Cell::new(0) };
+    static ITER_SCRIPTS: Cell<u64> = const { Cell::new(0) };
     static SECOND_SHORTER: Cell<u64> = const { Cell::new(0) };
     static FIRST_SHORTER: Cell<u64> = const { Cell::new(0) };
     static DELAY_GT_LEN: Cell<u64> = const { Cell::new(0) };
@@ -256,6 +257,19 @@ where
                 }
             }
             ev(p * F::CHANNELS as u64);
+            // 5. iterator protocol of the iterator views (nth / fold / count / last / skip /
+            // step_by / size_hint / len against plain next(), after any prefix of steps)
+            if p <= 24 {
+                let mut rng = Rng::derive(p, &[55, vmon::hash_str(&node.encode())]);
+                let cs = case();
+                let mut n = checks::iterconf::check_iter("into_interleaved_samples", &cs, || build::<F>(node, &mk_leaves(), &mut Vec::new()).into_interleaved_samples().into_iter(), rep, &mut rng, 10);
+                n += checks::iterconf::check_iter("until_exhausted", &cs, || build::<F>(node, &mk_leaves(), &mut Vec::new()).until_exhausted(), rep, &mut rng, 6);
+                let tn = (p / 2 + 2) as usize;
+                n += checks::iterconf::check_iter("take", &cs, || build::<F>(node, &mk_leaves(), &mut Vec::new()).take(tn), rep, &mut rng, 6);
+                n += checks::iterconf::check_exact_size("take", &cs, || build::<F>(node, &mk_leaves(), &mut Vec::new()).take(tn), rep);
+                ITER_SCRIPTS.with(|c| c.set(c.get() + n));
+                ev(n);
+            }
         }
         Ok(())
     }));
@@ -351,8 +365,50 @@ fn note_obligations(node: &Node, lens: &[Option<u64>]) {
     }
 }
 
+/// take(n) for n around the integer-width boundaries: len() / size_hint() report n - k after k
+/// items (never a truncated n), and the first items are the source's.
+fn huge_take(rep: &mut Report) {
+    let mut n_checked = 0u64;
+    for n in vmon::edge::wide_usizes(3).into_iter().filter(|n| *n > 1000) {
+        let case = format!("kind=hugetake;n={}", n);
+        let r = vmon::catch(|| -> Result<(), String> {
+            let mut k = 0u64;
+            let mut t = signal::gen_mut(move || {
+                k += 1;
+                k as f64
+            })
+            .take(n);
+            for i in 0..40usize {
+                if t.len() != n - i || t.size_hint() != (n - i, Some(n - i)) {
+                    return Err(format!("after {} items len() = {}, size_hint() = {:?}, expected {}", i, t.len(), t.size_hint(), n - i));
+                }
+                match t.next() {
+                    Some(x) if x == (i + 1) as f64 => {}
+                    other => return Err(format!("item {} = {:?}, expected {}", i, other, i + 1)),
+                }
+            }
+            Ok(())
+        });
+        match r {
+            Ok(Ok(())) => {}
+            Ok(Err(d)) => {
+                rep.violation("take|huge_n|len_or_items", format!("take({}): {}", n, d), case);
+                return;
+            }
+            Err(m) => {
+                rep.violation("take|huge_n|panic", format!("take({}): {}", n, m), case);
+                return;
+            }
+        }
+        n_checked += 1;
+    }
+    rep.eval(n_checked * 40);
+    rep.hit_n("take_n_at_least_2_pow_32", n_checked);
+}
+
 fn flush(rep: &mut Report) {
     rep.eval(EVALS.with(|c| c.replace(0)));
+    rep.hit_n("iterator_conformance_scripts", ITER_SCRIPTS.with(|c| c.replace(0)));
     rep.hit_n("two_source_second_shorter", SECOND_SHORTER.with(|c| c.replace(0)));
     rep.hit_n("two_source_first_shorter", FIRST_SHORTER.with(|c| c.replace(0)));
     rep.hit_n("delay_longer_than_source", DELAY_GT_LEN.with(|c| c.replace(0)));
@@ -375,6 +431,7 @@ fn main() {
             }
             "from_iter" => check_from_iter(&mut rep, m["len"].parse().unwrap(), m["revive"] == "true", m["extra"].parse().unwrap()),
             "lift" => check_lift(&mut rep, m["len"].parse().unwrap()),
+            "hugetake" => huge_take(&mut rep),
             _ => {
                 let (l, rv, ex): (usize, bool, usize) = (m["len"].parse().unwrap(), m["revive"] == "true", m["extra"].parse().unwrap());
                 match m["ch"].as_str() {
@@ -392,9 +449,12 @@ fn main() {
         flush(&mut rep);
         finish(&cli, rep, t0);
     }
-    for o in ["two_source_second_shorter", "two_source_first_shorter", "delay_longer_than_source", "delay_equal_to_source_length", "zero_length_source", "trailing_partial_frame"] {
+    for o in ["iterator_conformance_scripts", "two_source_second_shorter", "two_source_first_shorter", "delay_longer_than_source", "delay_equal_to_source_length", "zero_length_source", "trailing_partial_frame"] {
         rep.oblige(o, 1);
     }
+
+    rep.oblige("take_n_at_least_2_pow_32", 1);
+    huge_take(&mut rep);
 
     // ---- signals from iterators: lengths 0..=20 (frames) / 0..=8N+? samples x channels 1..=8
     let max_len = cli.t(20usize, 64usize);
